@@ -12,6 +12,7 @@ import (
 	"github.com/go-logr/logr"
 	corev1 "k8s.io/api/core/v1"
 	policyv1 "k8s.io/api/policy/v1"
+	storagev1 "k8s.io/api/storage/v1"
 	apierrors "k8s.io/apimachinery/pkg/api/errors"
 	metav1 "k8s.io/apimachinery/pkg/apis/meta/v1"
 	"k8s.io/apimachinery/pkg/runtime/schema"
@@ -72,8 +73,14 @@ type PodIn struct {
 }
 
 type Step struct {
-	K  string `json:"k"`  // add | drain | node | rec | tick | mut
-	D  *int64 `json:"d"`  // add/drain/node: node deadline, ns offset (null = NodeClaim has no terminationGracePeriod)
+	K string `json:"k"` // add | drain | node | rec | tick | mut
+	D *int64 `json:"d"` // add/drain/node: node deadline, ns offset (null = NodeClaim has no terminationGracePeriod)
+	// node: raw value of the NodeClaim's karpenter.sh/nodeclaim-termination-timestamp annotation, written verbatim
+	// (null = the annotation is derived from `d`: RFC3339 in UTC, or absent when `d` is null)
+	A *string `json:"a"`
+	// node: NodeClaim shape: "" = exactly one NodeClaim for the node, "none" = no NodeClaim,
+	// "dup" = two NodeClaims with the node's provider id (both carry the annotation)
+	C  string `json:"c"`
 	Ps []int  `json:"ps"` // add: pod indices
 	P  int    `json:"p"`  // rec/mut: pod index
 	Ns int64  `json:"ns"` // tick: clock advance
@@ -133,7 +140,9 @@ type world struct {
 	eo, do   string // scripted answers for the current step
 	useCtl   bool
 	ctl      *termination.Controller
-	nodeDead *int64 // deadline currently written on the NodeClaim (controller mode)
+	nodeDead *int64  // deadline currently written on the NodeClaim (controller mode)
+	nodeAnn  *string // raw annotation value written instead (controller mode)
+	claims   string  // NodeClaim shape (controller mode): "" | none | dup
 }
 
 func uidOf(i, gen int) types.UID { return types.UID(fmt.Sprintf("u%d-%d", i, gen)) }
@@ -228,12 +237,24 @@ func (w *world) nodeObjs() []client.Object {
 		node.Finalizers = []string{v1.TerminationFinalizer}
 		nc.DeletionTimestamp = &dt
 		nc.Finalizers = []string{v1.TerminationFinalizer}
-		if w.nodeDead != nil {
+		switch {
+		case w.nodeAnn != nil:
+			nc.Annotations = map[string]string{v1.NodeClaimTerminationTimestampAnnotationKey: *w.nodeAnn}
+		case w.nodeDead != nil:
 			nc.Annotations = map[string]string{v1.NodeClaimTerminationTimestampAnnotationKey: base.Add(time.Duration(*w.nodeDead)).Format(time.RFC3339)}
 		}
 	}
 	other := &corev1.Node{ObjectMeta: metav1.ObjectMeta{Name: otherNode, UID: "node-b-uid"}, Spec: corev1.NodeSpec{ProviderID: "fake://node-b"}}
-	return []client.Object{node, nc, other}
+	objs := []client.Object{node, other}
+	if !w.useCtl || w.claims != "none" {
+		objs = append(objs, nc)
+	}
+	if w.useCtl && w.claims == "dup" {
+		nc2 := nc.DeepCopy()
+		nc2.Name, nc2.UID = "claim-a2", "claim-a2-uid"
+		objs = append(objs, nc2)
+	}
+	return objs
 }
 
 // rebuild re-creates the fake API server content from the world state (the fake client refuses to
@@ -249,6 +270,7 @@ func (w *world) rebuild() {
 		WithIndex(&corev1.Pod{}, "spec.nodeName", func(o client.Object) []string { return []string{o.(*corev1.Pod).Spec.NodeName} }).
 		WithIndex(&corev1.Node{}, "spec.providerID", func(o client.Object) []string { return []string{o.(*corev1.Node).Spec.ProviderID} }).
 		WithIndex(&v1.NodeClaim{}, "status.providerID", func(o client.Object) []string { return []string{o.(*v1.NodeClaim).Status.ProviderID} }).
+		WithIndex(&storagev1.VolumeAttachment{}, "spec.nodeName", func(o client.Object) []string { return []string{o.(*storagev1.VolumeAttachment).Spec.NodeName} }).
 		WithStatusSubresource(&v1.NodeClaim{}, &v1.NodePool{}).
 		WithObjects(objs...).Build()
 	w.inner.WithWatch = fc
@@ -455,7 +477,7 @@ func (w *world) step(s Step) (StepOut, error) {
 			out.R = "error"
 		}
 	case "node":
-		r, err := w.nodeReconcile(s.D)
+		r, err := w.nodeReconcile(s)
 		if err != nil {
 			return out, err
 		}
@@ -543,14 +565,20 @@ func runHistory(in *HistIn, useCtl bool) (*HistOut, error) {
 }
 
 // nodeReconcile drives the real termination controller: Reconcile -> finalize -> nodeTerminationTime
-// (NodeClaim annotation) -> Taint -> awaitDrain -> Terminator.Drain. Node and NodeClaim are re-created
-// before every call so that finalize never gets past the drain stage (MinDrainTime has not elapsed):
-// only the drain decision of the controller is observed here.
-func (w *world) nodeReconcile(d *int64) (string, error) {
-	if d != nil && *d%int64(time.Second) != 0 {
-		return "", fmt.Errorf("controller mode needs whole-second deadlines (RFC3339 annotation)")
+// (NodeClaim annotation) -> Taint -> awaitDrain -> Terminator.Drain. Node and NodeClaim(s) are re-created
+// before every call so that finalize never gets past the drain stage while there is a NodeClaim (MinDrainTime
+// has not elapsed): only the drain decision of the controller is observed here. Without a (single) NodeClaim
+// there is no MinDrainTime wait: a drained node goes on to lose its finalizer, which is reported as "drained".
+func (w *world) nodeReconcile(s Step) (string, error) {
+	if s.A == nil && s.D != nil && *s.D%int64(time.Second) != 0 {
+		return "", fmt.Errorf("controller mode needs whole-second deadlines in `d` (RFC3339 annotation); use `a` for fractions")
 	}
-	w.nodeDead = d
+	switch s.C {
+	case "", "none", "dup":
+	default:
+		return "", fmt.Errorf("bad NodeClaim shape %q", s.C)
+	}
+	w.nodeDead, w.nodeAnn, w.claims = s.D, s.A, s.C
 	w.rebuild()
 	w.rec.Reset()
 	node := &corev1.Node{}
@@ -564,7 +592,7 @@ func (w *world) nodeReconcile(d *int64) (string, error) {
 	if w.rec.Calls(events.FailedDraining) > 0 {
 		return "waiting", nil
 	}
-	if res.RequeueAfter == 0 {
+	if res.RequeueAfter == 0 && s.C == "" {
 		return "proceeded", nil // must not happen: MinDrainTime cannot have elapsed
 	}
 	return "drained", nil
